@@ -207,6 +207,10 @@ class Case:
                     first = stackscope.extract(tgt)
                     self.stats["extractions"] += 1
                     s_first = str(first)
+                    if "optional dependency is not installed" in s_first:
+                        self.problems.append(f"point {i} ({label}): the extraction of the target failed with the ImportError of an unrelated "
+                                             f"sys.modules entry (a stand-in for a missing optional dependency): {len(first.frames)} frames, "
+                                             f"error {first.error!r}")
                     del first
                     if frame is not None:
                         gc.collect()       # results can contain reference cycles: only a collection really drops them
@@ -280,6 +284,22 @@ class Case:
             except BaseException as e:   # the program itself went wrong in a way the controller does not swallow
                 return w, [("harness-exc", type(e).__name__ + ": " + str(e)[:80])]
 
+        hostile_name = None
+        if c.get("hostile_module"):
+            # sys.modules holds a stand-in for a missing optional dependency: any attribute access on it raises ImportError (it
+            # appears right before the runs, so the glue scan that precedes an extraction meets it)
+            class _Missing(types.ModuleType):
+                def __getattribute__(self, name):
+                    if not name.startswith("__") or name in ("__spec__", "__dict__"):
+                        raise ImportError("optional dependency is not installed")
+                    return super().__getattribute__(name)
+
+            Case._hostile_n = getattr(Case, "_hostile_n", 0) + 1
+            hostile_name = f"verif_c06_missing_{Case._hostile_n}"
+            sys.modules[hostile_name] = _Missing(hostile_name)
+            # (plus one ordinary module that stays: the number of modules is then one the glue scan has not seen, whatever was
+            # added and removed before -- otherwise the scan is skipped, which is known finding F4's mechanism)
+            sys.modules[hostile_name + "_pad"] = types.ModuleType(hostile_name + "_pad")
         log_handlers = []
         if c.get("logging"):
             # an application with verbose logging switched on for everything: one handler formats each record at once, one
@@ -358,6 +378,8 @@ class Case:
                                      f"carry alive (first: {extra_recs[0].name}: {str(extra_recs[0].msg)[:80]!r})")
             for h in log_handlers:
                 h.close()
+        if hostile_name:
+            sys.modules.pop(hostile_name, None)
         lowlevel.set_trickery_enabled(None)
         if gc_off:
             if gc.isenabled():
